@@ -150,3 +150,31 @@ CAPSULE = {
             'hit_point_lies_on_the_capsule_surface': 'implies(result >= 0, ON_SURFACE(result))',
         }, 'no_error': True},
 }
+
+
+# mju_rayGeom (normal == NULL): the dispatch on the geom type.  Plane, sphere and capsule by their proved contracts; the ellipsoid,
+# cylinder and box routines (not under contract) are named by ghost values so that the dispatch itself is pinned down.
+def _assumed_named(ghost):
+    return {'assumed': True, 'ghost_params': {ghost: 'real'}, 'requires': {}, 'assigns': [], 'pure': True, 'ensures': {'value_named_by_the_ghost': 'result == %s' % ghost}}
+
+
+RAYGEOM = {
+    '__defs__': dict(PLANE_DEFS, **CAP_DEFS), '__no_merge__': True,
+    'ray_plane': PLANE['ray_plane'], 'ray_sphere': QUAD['ray_sphere'], 'ray_capsule': CAPSULE['ray_capsule'],
+    'ray_ellipsoid': _assumed_named('R_ELL'), 'ray_cylinder': _assumed_named('R_CYL'), 'ray_box': _assumed_named('R_BOX'),
+    'mju_rayGeom': {
+        'ghost_params': {'R_ELL': 'real', 'R_CYL': 'real', 'R_BOX': 'real'},
+        'params': {'pos': {'n': 3}, 'mat': {'n': 9}, 'size': {'n': 3}, 'pnt': {'n': 3}, 'vec': {'n': 3}, 'normal': {'null': True}},
+        'requires': {'no_normal_requested': 'normal == NULL', 'sizes': 'size[0] >= 0 and size[1] >= 0'},
+        'assigns': [],
+        'ensures': {
+            'plane_hit_lies_in_the_plane_inside_the_rendered_rectangle': 'implies(geomtype == mjGEOM_PLANE and result >= 0, H(2) == 0 and (size[0] <= 0 or absr(H(0)) <= size[0]) and (size[1] <= 0 or absr(H(1)) <= size[1]))',
+            'sphere_hit_lies_on_the_sphere_of_radius_size0': 'implies(geomtype == mjGEOM_SPHERE and result >= 0, HP(0)*HP(0) + HP(1)*HP(1) + HP(2)*HP(2) == size[0]*size[0])',
+            'capsule_hit_lies_on_the_capsule_surface': 'implies(geomtype == mjGEOM_CAPSULE and result >= 0, ON_SURFACE(result))',
+            'ellipsoid_cylinder_box_go_to_their_own_routines': 'implies(geomtype == mjGEOM_ELLIPSOID, result == R_ELL) and implies(geomtype == mjGEOM_CYLINDER, result == R_CYL) and implies(geomtype == mjGEOM_BOX, result == R_BOX)',
+            'minus_one_or_nonneg_for_the_proved_types': 'implies(geomtype == mjGEOM_PLANE or geomtype == mjGEOM_SPHERE or geomtype == mjGEOM_CAPSULE, result == -1 or result >= 0)',
+        },
+        'error_only_if': 'not (geomtype == mjGEOM_PLANE or geomtype == mjGEOM_SPHERE or geomtype == mjGEOM_CAPSULE or geomtype == mjGEOM_ELLIPSOID or geomtype == mjGEOM_CYLINDER or geomtype == mjGEOM_BOX)',
+        'ghost_args': {'ray_ellipsoid': {'R_ELL': 'R_ELL'}, 'ray_cylinder': {'R_CYL': 'R_CYL'}, 'ray_box': {'R_BOX': 'R_BOX'}},
+    },
+}
